@@ -10,6 +10,7 @@ import (
 
 	"jsverif/internal/prog"
 	"jsverif/internal/scanfsm"
+	"jsverif/internal/ssaeval"
 )
 
 func init() { register("C11", propC11, false, false) }
@@ -149,7 +150,36 @@ func (c *Ctx) ruleC11WalkUp() {
 	var allowedIf, rootIf *ast.IfStmt
 	var explicitIfs []*ast.IfStmt
 	var appendChild []*ast.CallExpr
-	var parentAssign, walkUp, rootAppends []*ast.AssignStmt
+	var parentAssign, walkUp []*ast.AssignStmt
+	var rootAppends []ast.Node
+	// helpers of the package that append their directive parameter to a list handed in by pointer (appendToRoot):
+	// a call of one with d counts as the root append
+	appendHelpers := map[*types.Func]int{} // -> index of the directive parameter
+	for _, h := range c.libFns() {
+		if h.Pkg != pk || h.Obj == f.Obj {
+			continue
+		}
+		ast.Inspect(h.Decl.Body, func(n ast.Node) bool {
+			as, ok := n.(*ast.AssignStmt)
+			if !ok || len(as.Lhs) != 1 || len(as.Rhs) != 1 {
+				return true
+			}
+			call, ok := ast.Unparen(as.Rhs[0]).(*ast.CallExpr)
+			if !ok || len(call.Args) != 2 {
+				return true
+			}
+			if id, ok := call.Fun.(*ast.Ident); !ok || id.Name != "append" {
+				return true
+			}
+			if st, ok := ast.Unparen(as.Lhs[0]).(*ast.StarExpr); !ok || paramIndexOf(h, st.X) < 0 {
+				return true
+			}
+			if i := paramIndexOf(h, call.Args[1]); i >= 0 && dirPtr(call.Args[1]) && !paramAssigned(h, call.Args[1]) {
+				appendHelpers[h.Obj] = i
+			}
+			return true
+		})
+	}
 	inspectWithStack(f.Decl.Body, func(n ast.Node, stack []ast.Node) bool {
 		switch x := n.(type) {
 		case *ast.SelectorExpr:
@@ -158,6 +188,9 @@ func (c *Ctx) ruleC11WalkUp() {
 			}
 		case *ast.CallExpr:
 			if cal := callee(pk, x); cal != nil {
+				if i, isHelper := appendHelpers[cal.Origin()]; isHelper && i < len(x.Args) && accessPath(pk, x.Args[i]) == dPath {
+					rootAppends = append(rootAppends, x)
+				}
 				if sel, ok := ast.Unparen(x.Fun).(*ast.SelectorExpr); ok {
 					switch cal.Name() {
 					case "Type", "AppendChild":
@@ -372,58 +405,99 @@ func (c *Ctx) ruleC11Close() {
 		r.Undecided("C11-CLOSE", "anchor", "closeLastExplicitContext not found", "")
 		return
 	}
-	pk := f.Pkg
-	var nilIf, explIf *ast.IfStmt
-	var walk []*ast.AssignStmt
-	ast.Inspect(f.Decl.Body, func(n ast.Node) bool {
-		switch x := n.(type) {
-		case *ast.IfStmt:
-			if be, ok := ast.Unparen(x.Cond).(*ast.BinaryExpr); ok && be.Op == token.EQL && (isNil(pk, be.Y) || isNil(pk, be.X)) {
-				nilIf = x
+	where := c.pos(f.Decl.Pos())
+	// closeLastExplicitContext is read off its abstract evaluation (three rounds of its loop): the context cursor
+	// only ever moves from a directive to that directive's Parent; a directive is left only together with a test of
+	// its HasExplicitContext; nil is returned exactly when the directive left last was explicit (and no earlier one
+	// was); a non-nil error is returned exactly when the cursor was found to be nil. The layout (endless loop with
+	// ifs, loop condition, local alias) does not matter.
+	cur := c.coreField("currentContextDirective")
+	sf := c.P.SSAFunc(f.Obj)
+	if cur == nil || sf == nil {
+		r.Undecided("C11-CLOSE", "anchor", "context cursor field or SSA form not found", where)
+	} else {
+		loc := "core." + cur.Name()
+		ev := c.newEval()
+		outs := ev.Run(sf, []ssaeval.Value{ssaeval.Obj("core")})
+		bad, nNil, nErr, nCut := "", 0, 0, 0
+		for _, o := range outs {
+			if o.Panics {
+				bad = "a path panics"
+				continue
 			}
-			if fld := fieldSel(pk, x.Cond); fld != nil && fld.Name() == "HasExplicitContext" {
-				explIf = x
+			cursor := "L(" + loc + ")@0"
+			var left []string // cursors that were left, in order
+			explicit := map[string]string{}
+			nilFound := false
+			for _, e := range o.Events {
+				switch {
+				case e.Kind == "store" && e.Loc == loc:
+					if !strings.HasPrefix(e.Args[0].Term(), "L("+cursor+".Parent)@") {
+						bad = "the context cursor is set to " + e.Args[0].Term() + ", which is not the Parent of the context it leaves"
+					}
+					left = append(left, cursor)
+					cursor = e.Args[0].Term()
+				case e.Kind == "cond":
+					t := e.Args[0].Term()
+					if strings.HasPrefix(t, "L(") && strings.Contains(t, ".HasExplicitContext)@") {
+						subj := strings.TrimPrefix(t[:strings.Index(t, ".HasExplicitContext)@")], "L(")
+						explicit[subj] = e.Fn
+					}
+					if (t == "==("+cursor+",nil)" && e.Fn == "true") || (t == "!=("+cursor+",nil)" && e.Fn == "false") {
+						nilFound = true
+					}
+				}
 			}
-		case *ast.AssignStmt:
-			if len(x.Rhs) == 1 {
-				if fld := fieldSel(pk, x.Rhs[0]); fld != nil && fld.Name() == "Parent" {
-					walk = append(walk, x)
+			if o.Incomplete != "" {
+				nCut++
+				// a cut path still must have tested every context it left and found it implicit
+				for _, l := range left {
+					if explicit[l] != "false" {
+						bad = "a context is left (cursor moved to its Parent) although it was not found implicit, and the walk goes on"
+					}
+				}
+				continue
+			}
+			if len(o.Rets) != 1 {
+				bad = "unexpected results"
+				continue
+			}
+			isNil, known := o.Rets[0].IsNilKnown()
+			switch {
+			case !known:
+				bad = "a path returns a value whose nil-ness is not known: " + o.Rets[0].String()
+			case isNil:
+				nNil++
+				if len(left) == 0 || explicit[left[len(left)-1]] != "true" {
+					bad = "success is returned although the context left last was not found explicit (or nothing was left)"
+				}
+				for _, l := range left[:max(len(left)-1, 0)] {
+					if explicit[l] != "false" {
+						bad = "the walk went on past a context that was not found implicit"
+					}
+				}
+			default:
+				nErr++
+				if !nilFound {
+					bad = "an error is returned although the cursor was not found to be nil"
+				}
+				for _, l := range left {
+					if explicit[l] != "false" {
+						bad = "an error is returned after an explicit context was left"
+					}
 				}
 			}
 		}
-		return true
-	})
-	where := c.pos(f.Decl.Pos())
-	if nilIf != nil && returnsNonNilError(pk, nilIf.Body.List) {
-		r.Ok("C11-CLOSE", "error at nil", "a ')' with no open context returns an error", c.pos(nilIf.Pos()))
-	} else {
-		r.Bad("C11-CLOSE", "error at nil", "running out of contexts while closing does not return an error", where)
-	}
-	if explIf != nil && returnsNil(nil, explIf.Body.List) {
-		moved := false
-		for _, w := range walk {
-			if explIf.Body.Pos() <= w.Pos() && w.End() <= explIf.Body.End() {
-				moved = true
-			}
+		switch {
+		case bad != "":
+			r.Bad("C11-CLOSE", "stop at first explicit", bad, where)
+		case nNil == 0 || nErr == 0:
+			r.Bad("C11-CLOSE", "stop at first explicit", fmt.Sprintf("%d paths return success and %d an error: both are needed", nNil, nErr), where)
+		default:
+			r.Ok("C11-CLOSE", "stop at first explicit", fmt.Sprintf("on each of the %d paths that return success the context left last is the first explicit one and the cursor is its Parent (%d paths cut at the loop bound, each leaving only implicit contexts)", nNil, nCut), where)
+			r.Ok("C11-CLOSE", "error at nil", fmt.Sprintf("each of the %d paths that return an error found the cursor nil, after leaving only implicit contexts", nErr), where)
+			r.Ok("C11-CLOSE", "implicit contexts close on the way", "every move of the cursor goes from a context to its Parent", where)
 		}
-		if moved {
-			r.Ok("C11-CLOSE", "stop at first explicit", "the first explicit ancestor is closed (cursor moves to its parent) and the walk stops", c.pos(explIf.Pos()))
-		} else {
-			r.Bad("C11-CLOSE", "stop at first explicit", "the explicit context found is not left (no move to its parent before returning)", c.pos(explIf.Pos()))
-		}
-	} else {
-		r.Bad("C11-CLOSE", "stop at first explicit", "no `if ctx.HasExplicitContext { ...; return nil }` in closeLastExplicitContext", where)
-	}
-	cnt := 0
-	for _, w := range walk {
-		if explIf == nil || !(explIf.Body.Pos() <= w.Pos() && w.End() <= explIf.Body.End()) {
-			cnt++
-		}
-	}
-	if cnt == 1 {
-		r.Ok("C11-CLOSE", "implicit contexts close on the way", "one unconditional move to the parent after the explicit test", where)
-	} else {
-		r.Bad("C11-CLOSE", "implicit contexts close on the way", fmt.Sprintf("%d walk steps outside the explicit branch (expected 1)", cnt), where)
 	}
 	// processContextEnd
 	if g := c.fn("core", "JApiCore.processContextEnd"); g != nil {
